@@ -339,10 +339,14 @@ def run(ctx):
     instances = [("canonical", R.canonical_instance())]
     for i in range(ctx.pick(1, 5)):
         instances.append(("random-%d-%d" % (ctx.shard, i), R.random_instance(rng)))
+    instances.append(("dangling-%d" % ctx.shard, R.dangling_instance(rng)))
     sb, db = sqla_bases(), django_bases()
     per = ctx.pick(8, 60)
     for inst_name, inst in instances:
-        django_env.load_relational(inst)
+        if not inst.get("_dangling"):
+            django_env.load_relational(inst)
+        else:
+            ctx.cls("instances-with-dangling-keys")
         sqla_env.load_relational(inst)
         graph = R.Graph(inst)
         for bname, (fn, ordered) in sb.items():
@@ -352,6 +356,8 @@ def run(ctx):
                 t = R.gen_filter(rng, "post", rng.randint(0, 2), {"lambda_owner_paths": True})
                 judge(ctx, graph, inst_name, "sqlalchemy", bname, fn, ordered, t, twice=(i % 7 == 6))
         for bname, (fn, ordered) in db.items():
+            if inst.get("_dangling"):
+                break       # Django enforces foreign keys on SQLite: no such content there
             for i in range(per):
                 if ctx.out_of_time():
                     break
